@@ -201,14 +201,14 @@ def run(chk: Check) -> None:
                                       {"op": "send", "frame": str(cmd), "known": known, "block": block, "enforce": enforce, "active": active})
 
     asyncio.run(body())
-    gateway_part(chk, rnd, thorough)
+    gateway_part(chk, rnd, thorough, D)
     chk.extra["configurations"] = len(configs)
     chk.exhaustive = thorough
     chk.sample({"config": {"known": [LISTED], "block": [BLOCKED], "enforce": True, "active": GWY}, "src": UNLISTED, "dst": LISTED, "wanted": False})
     D.run()
 
 
-def gateway_part(chk: Check, rnd: random.Random, thorough: bool) -> None:
+def gateway_part(chk: Check, rnd: random.Random, thorough: bool, D: Diff) -> None:
     """The second layer: a real `ramses_rf.Gateway` (its own `get_device` filter, the dispatcher) with the lists configured,
     fed live packets and - the restart path - a saved packet cache, with the gateway's own id known or not.  Whatever the
     route, no device may exist for an id that is blocked, or (enforced known list) neither listed nor the active gateway;
@@ -260,8 +260,23 @@ def gateway_part(chk: Check, rnd: random.Random, thorough: bool) -> None:
                     await rig.feed(fr)
                     await asyncio.sleep(0.5)
             devs = sorted(d.id for d in rig.gwy.devices)
+            # the second-layer rule itself, id by id, against the model (`canCreateDevice`): may a device be created now?
+            asked = []
+            g = rig.gwy
+            for d in list(ids.values()) + [gwrig.GWY_ID, gwrig.HGI_ID, "18:999999"]:
+                unwanted = list(g._unwanted)
+                hgi = g._protocol.hgi_id
+                gd = getattr(g.hgi, "id", None)
+                try:
+                    g.get_device(d)
+                    made = True
+                except LookupError:
+                    made = False
+                except Exception as e:  # noqa: BLE001
+                    made = "ERR:" + type(e).__name__
+                asked.append((unwanted, hgi, gd, d, made))
             await rig.stop()
-            return {"error": None, "devices": devs}
+            return {"error": None, "devices": devs, "asked": asked}
 
         try:
             res, _ = gwrig.run(body)
@@ -277,6 +292,8 @@ def gateway_part(chk: Check, rnd: random.Random, thorough: bool) -> None:
             continue
         chk.nontrivial.add(("gateway", tuple(sorted(known)), tuple(sorted(block)), enforce, gwy_known, tuple(cache_ids), tuple(live_ids)))
         eff_enforce = enforce  # (a non-empty known list with enforcement asked for stays enforced)
+        for unwanted, hgi, gd, d, made in res.get("asked", []):
+            D.add("filter.create", [",".join(block), ",".join(known), str(bool(enforce)), ",".join(unwanted), str(hgi), str(gd), d], f"ok\t{made}")
         for d in res["devices"]:
             if d in block:
                 chk.violation("gwy.device.blocked", f"a device exists for the block-listed id {d} (devices: {res['devices']})", rep)
